@@ -24,7 +24,7 @@ BY_FILE = {
 
 
 SLOW = ('C06', 'C10', 'C12')      # only run as the change's own check
-MAXREL = 3
+MAXREL = int(os.environ.get('MATRIX_MAXREL', '3'))
 
 
 def sh(cmd, **kw):
